@@ -261,6 +261,10 @@ class Scenario:
             out, err = self.ro(name, call)
             if err is None:
                 got = [0, len(out)] + [x for k, v in out.items() for x in (int(k), self.tag_of(k, v))]
+                for v in list(out.values()):          # the result is the caller's: taken apart here
+                    if isinstance(v, dict):
+                        v.clear()
+                out.clear()
             elif isinstance(err, ValueError):
                 got = [1, 0]
             elif isinstance(err, IOError):
